@@ -5,6 +5,7 @@
     once), `forall` over tables of length 0..3;
 (b) every nesting (bounded depth) of if/for/while/forall/begin with print/break/continue/return/raise and
     writes to the control variable, at top level and inside a function.
+(c) every if / elsif / else chain of up to 3 rules over {true, false, null} conditions, at top level, in a loop, in a function.
 Oracle: the reference interpreter of vf/ctl.py (trace of printed lines, final variables, result), a step budget
 to tell termination from non-termination, and probe statements run afterwards in the same context.
 """
@@ -268,6 +269,52 @@ def nest_gen(tier):
 
 
 # ------------------------------------------------------------------------------------------------
+# (c) if / elsif / else chains: every assignment of {true, false, null} to up to 3 rules, with and without else, at top level,
+#     inside a loop and inside a function; exactly the first rule whose condition is true runs, else the else branch
+COND = {"T": ["vt", "(i1 == 0)"], "F": ["vf", "(i1 == 1)"], "N": ["vn", "(i1 == ni)", "bool()"]}
+
+
+def ifchain_cases():
+    import itertools as it
+    for nrules in (1, 2, 3):
+        for vals in it.product("TFN", repeat=nrules):
+            for has_else in (False, True):
+                for variant in (0, 1, 2):
+                    conds = [COND[v][min(variant, len(COND[v]) - 1)] if v != "N" else COND["N"][(variant + i) % 3] for i, v in enumerate(vals)]
+                    text = ""
+                    for i, c in enumerate(conds):
+                        text += ("if %s then print \"r%d\"; " if i == 0 else "elsif %s then print \"r%d\"; ") % (c, i)
+                    if has_else:
+                        text += 'else print "else"; '
+                    text += "end if;"
+                    want = "else\n" if has_else else ""
+                    for i, v in enumerate(vals):
+                        if v == "T":
+                            want = "r%d\n" % i
+                            break
+                    yield text, want, "".join(vals) + ("+else" if has_else else "")
+
+
+def ifchain_gen(tier):
+    def gen():
+        n = 0
+        pre = DECL + " vn = bool(); ni = int();"
+        for text, want, tag in ifchain_cases():
+            for where in ("top", "loop", "func"):
+                if where == "top":
+                    prog, exp = text + ' print "after";', want + "after\n"
+                elif where == "loop":
+                    prog, exp = "for k in 1 to 2 loop %s print k; end loop; print \"after\";" % text, (want + "1\n" + want + "2\n") + "after\n"
+                else:
+                    prog = ("function fi() return integer is begin i1 = 0; vt = true; vf = false; vn = bool(); ni = int(); %s return 7; end; print fi(); print \"after\";" % text)
+                    exp = want + "7\nafter\n"
+                ops = [op_ctx(), op_run(pre), op_run(prog), op_out(), op_dump(0, "I1"), op_run(PROBES), op_out(), op_dump(0, "I")]
+                yield Case("c%d" % n, ops, {"kind": "ifchain", "tag": tag, "where": where, "prog": prog, "want": exp})
+                n += 1
+    return gen
+
+
+# ------------------------------------------------------------------------------------------------
 PROBE_EXPECT = "stringstringstringstring\n%s\n1\n2\n13\n1\n"
 
 
@@ -329,6 +376,14 @@ def check(case, res):
             vs.append(Violation("for:trace:%s" % tag, "printed %r, expected %r for %s" % (out, want, {a: b for a, b in m.items() if a not in ("prog", "env")}), case))
         tlen = len(env["t"]) if "t" in env else 2
         check_probes(vs, case, prun, pout, pdump, "3%d" % (tlen + 1), kind)
+        return vs, True
+    if kind == "ifchain":
+        run, out, prun, pout, pdump = st[2], text(st[3]), st[5], text(st[6]), st[7]
+        if run.get("r") != "ok":
+            vs.append(Violation("ifchain:error:%s" % m["where"], "%s gave %s" % (m["prog"], run), case))
+        elif out != m["want"]:
+            vs.append(Violation("ifchain:branch:%s:%s" % (m["tag"], m["where"]), "%s printed %r, expected %r" % (m["prog"], out, m["want"]), case))
+        check_probes(vs, case, prun, pout, pdump, "33", kind)
         return vs, True
     if kind == "nest":
         prog = m["prog"]
@@ -412,6 +467,7 @@ def run(tier):
     total.merge(explore("%s-%s-headers" % (PROP, tier), header_gen(tier), check, chunk=200, deadline=deadline))
     from ..core import explore_gcc
     total.merge(explore_gcc("%s-%s-headers" % (PROP, tier), header_gen(tier), check, chunk=200, deadline=deadline))
+    total.merge(explore("%s-%s-ifchains" % (PROP, tier), ifchain_gen(tier), check, chunk=200, deadline=deadline))
     total.merge(explore("%s-%s-nesting" % (PROP, tier), nest_gen(tier), check, chunk=200, deadline=deadline))
     rule = ("(a) every for header over first/limit in {MIN, MIN+1, -2..2, MAX-1, MAX, null} x step in {absent, null, MIN, -1, 0, 1, 2, MAX} x "
             "{auto, asc, desc}; every short range (|limit-first| <= 3, steps 1..3) run to completion near 0, INT64_MAX and INT64_MIN, with bodies "
